@@ -108,6 +108,7 @@ def contract(key, props=(), **kw):
         for k, v in kw.items():
             setattr(c, k, v)
         fn(c)
+        c.defined_in = fn.__module__
         rk = kw.get("register_as", key)
         REGISTRY[rk] = c
         ORDER.append(rk)
